@@ -43,12 +43,13 @@ ID = "C18"
 LEVEL = "exploration"
 RULE = ("seeded scenarios: 45% long-running worker runs through the real retry loop (attempt numbers up to 3000), 35% "
         "direct strategy calls (attempt up to 1e6, prev delay up to 1e308), 20% adaptive() histories on the simulated "
-        "clock; parameters 0 <= base_s <= max_s from 0 to 1e6 incl. 0 and equality; jitter draws forced to 0 / 1-2^-53 / "
+        "clock (of which ~1/5 shared by 2-3 threads under a seeded baton schedule; multipliers up to 1e308/inf/nan); parameters 0 <= base_s <= max_s from 0 to 1e6 incl. 0 and equality; jitter draws forced to 0 / 1-2^-53 / "
         "seeded; distinct by (strategy, parameters, draw mode, attempt-range bucket) hash; non-trivial = at least one "
         "strategy evaluation with attempt > 8 or an extreme draw")
 COMPONENTS = {"real": ["redress.strategies.decorrelated_jitter / equal_jitter / token_backoff / adaptive / retry_after_or / _normalize_strategy",
                        "redress.policy Retry / AsyncRetry loop (worker runs)"],
-              "stub": ["random (ScriptedRandom: every draw from the scenario)", "clock (SimClock)", "operation / classifier / sleeper (scripted)"]}
+              "stub": ["random (ScriptedRandom: every draw from the scenario)", "clock (SimClock)", "operation / classifier / sleeper (scripted)",
+                       "threaded sub-batch: thread scheduler (baton, seeded) and the adaptive object's lock (cooperative SimLock set on the instance); the threads are real OS threads running the real strategy code"]}
 ASSUMPTIONS = ["much of this property's quantifier is plain input space (parameters, attempt numbers); the simulator owns the draw, "
                "the clock/history and the attempt numbers reached by the loop", "envelope comparisons allow 1e-9 relative rounding slack",
                "sampling, not proof"]
